@@ -120,6 +120,8 @@ fn main() {
                 fill::replay(&v).unwrap_or(false)
             } else if h == "c15.t1" {
                 c15::replay_t1(&v)
+            } else if h == "c19.t1" {
+                c19::replay_t1(&v)
             } else if h == "pingloom" || h.starts_with("x2.threads") {
                 c20::replay(&v).unwrap_or(false)
             } else if h == "c07.t1" {
